@@ -29,7 +29,7 @@ OVERRIDES = {
     "C14-8A": (["--release"], None), "C15-8B": (["--release"], None), "C16-8A": (["--features", "std"], None),
     "C17-8A": (["--features", "std"], None), "C17-8B": (["--no-default-features", "--features", "x25519"], None),
     "C07-9A": (["--features", "std"], None), "C17-9A": (["--no-default-features", "--features", "x25519"], None),
-    "C17-9B": (["--release"], None), "C02-9B": ([], True),
+    "C17-9B": (["--release"], None), "C02-9B": ([], True), "C04-9B": (["--release"], None),
 }
 
 
